@@ -129,6 +129,14 @@ class Obj:
 
 UNIT = Agg("()")
 
+_PREFIXES = re.compile(r"\b(?:std|core|alloc)::(?:rc|vec|sync|boxed|collections::hash_map|collections::vec_deque|collections|option|"
+                       r"result|ops|any|string|slice|iter|cmp|convert|clone|default|marker|mem|fmt)::(?=[A-Z])")
+
+
+def normalise(callee):
+    """drop std module prefixes in front of type names: `std::rc::Rc<..>` -> `Rc<..>`"""
+    return _PREFIXES.sub("", callee)
+
 
 def strip_generics(p):
     out, d = [], 0
@@ -441,6 +449,13 @@ class Ctx:
         m = re.match(r"^'(.)'$", t)
         if m:
             return Int(ord(m.group(1)), 32)
+        m = re.match(r"^(.*)::(promoted\[\d+\])$", t, re.S)
+        if m:
+            f = self.resolve(m.group(1))
+            if f is not None and (f.name + "::" + m.group(2)) in self.fns:
+                return self.run_fn(self.fns[f.name + "::" + m.group(2)], [])
+            # unresolved promoted constant (typically format-string pieces feeding a panic message)
+            return Obj("promoted", "?", text=t)
         raise Unsupported("constant %r" % text)
 
     def operand(self, frame, op):
@@ -598,6 +613,8 @@ class Ctx:
 
     def rvalue(self, frame, rhs):
         rhs = rhs.strip()
+        if rhs.startswith("no_retag "):
+            rhs = rhs[len("no_retag "):]
         if rhs.startswith(("copy ", "move ", "const ")):
             m = re.match(r"^(.*) as (.+?) \((\w+(?:\(.*\))?)\)$", rhs, re.S)
             if m and re.match(r"^(copy|move|const) ", m.group(1)):
@@ -686,9 +703,10 @@ class Ctx:
         raise Unsupported("no summary for %s" % key)
 
     def call(self, callee, args, ret_ty):
+        key = normalise(callee)
         for pat, fn in self.summaries:
-            if (pat == callee) if isinstance(pat, str) else pat.search(callee):
-                r = fn(self, args, ret_ty, callee)
+            if (pat == key) if isinstance(pat, str) else pat.search(key):
+                r = fn(self, args, ret_ty, key)
                 if r is not NotImplemented:
                     return r
         f = self.resolve(callee)
@@ -796,6 +814,7 @@ class CallResolver:
         self.fns, self.src = fns, src
         self.by_last = {}
         self.meta = {}
+        self.modof = {}
         for name, f in fns.items():
             last = name.split("::")[-1]
             self.by_last.setdefault(last, []).append(f)
@@ -803,7 +822,20 @@ class CallResolver:
             if m:
                 hdr = src.impl_header(m.group(1), int(m.group(2)))
                 self.meta[name] = self._hdr(hdr)
+                mod = m.group(1)[len("src/"):-len(".rs")].replace("/", "::")
+                if mod.endswith("::mod"):
+                    mod = mod[:-5]
+                self.modof[name] = mod
         self.cache = {}
+        self.closures = {}
+        for name, f in fns.items():
+            if "{closure#" in name and f.args:
+                t = f.args[0][1]
+                t = re.sub(r"^&(mut )?", "", t)
+                self.closures.setdefault(t, f)
+
+    def closure(self, ty):
+        return self.closures.get(ty)
 
     @staticmethod
     def _hdr(h):
@@ -831,8 +863,10 @@ class CallResolver:
         if c in self.fns:
             return self.fns[c]
         tr, ty, meth = None, None, None
+        full_ty = None
         m = re.match(r"^<(.+) as (.+)>::(\w+)(?:::<.*>)?$", c, re.S)
         if m:
+            full_ty = strip_generics(m.group(1)).lstrip("&").replace("mut ", "").strip()
             ty = strip_generics(m.group(1)).split("::")[-1].lstrip("&").replace("mut ", "").strip()
             tr = strip_generics(m.group(2)).split("::")[-1]
             meth = m.group(3)
@@ -841,6 +875,7 @@ class CallResolver:
             segs = p.split("::")
             meth = segs[-1]
             ty = segs[-2] if len(segs) >= 2 else None
+            full_ty = "::".join(segs[:-1])
         cands = self.by_last.get(meth, [])
         out = []
         for f in cands:
@@ -859,6 +894,12 @@ class CallResolver:
                     out.append(f)
         if len(out) == 1:
             return out[0]
+        if len(out) > 1 and full_ty and "::" in full_ty:
+            q = [f for f in out if (self.modof.get(f.name, "") + "::" + self.meta[f.name][1]).endswith(full_ty)]
+            if len(q) == 1:
+                return q[0]
+            if q:
+                out = q
         if len(out) > 1 and tr is not None:
             # derive impls on the same type: pick by trait via location column order is unknowable -> ambiguous
             exact = [f for f in out if self.meta[f.name][0] == tr]
